@@ -171,6 +171,8 @@ def model_query(case, impl_res):
           dict(op='frame', before=_dir_entries(ls[0]['hashes']), after=_dir_entries(ls[-1]['hashes']))]
     if ok['uuids'] is not None:
         qs.append(dict(view, op='uuids', impl_lines=ok['uuids']))
+    # the channel map a reloaded model shows: raw indices re-expressed per probe (the C14 model of make_channel_objects)
+    qs.append(dict(p='C14', op='rawind_direct', cm=sm['channel_mapping'], probes=sm['channel_probes']))
     return dict(p=PID, op='multi', qs=qs)
 
 
@@ -258,6 +260,10 @@ def judge(case, impl_res, ans):
                 return 'SPEC: %s of the %s model differs from the source' % (key, 'returned' if who == 'ret' else 'reloaded')
         if len(set(sm['channel_probes'])) == 1 and r['channel_mapping'] != sm['channel_mapping']:
             return 'SPEC: channel map of the %s model differs from the source (single probe)' % who
+        if not case.get('probes') and r['channel_mapping'] != res[-1]['model']:
+            # several probes in one dataset: the exported raw indices are the source's, counted from each probe's start
+            return ('SPEC: channel map of the %s model %s is not the source map re-expressed per probe %s' % (
+                who, r['channel_mapping'], res[-1]['model']))
     # frame of the whole conversion, decided by the Lean executable on the two real listings
     if not frame['frame_ok']:
         return 'SPEC: source directory not preserved by the conversion: changed/added/removed %s%s' % (
